@@ -262,11 +262,11 @@ pub fn cfg_from_line(s: &str) -> Cfg {
     }
 }
 
-const USERS: &[&str] = &["user", "alice", "bob-42", "u", "caf\u{e9}", "\u{30de}\u{30c8}\u{30ea}"];
-const PASSWORDS: &[&str] = &["password", "p", "s3cr3t/+=", "TheMatrIX", "pa\u{df}wort", "nb\u{a0}sp\u{2003}pw and space", "caf-e\u{301}-\u{212b}ngstrom", "0123456789abcdef0123456789abcdef0123456789abcdef0123456789abcdef-long"];
+const USERS: &[&str] = &["user", "alice", "bob-42", "u", "us:er", "caf\u{e9}", "\u{30de}\u{30c8}\u{30ea}"];
+const PASSWORDS: &[&str] = &["password", "p", "pass:word", "0123456789abcdef0123456789abcdef0123456789abcdef0123456789abcdef", "0123456789abcdef0123456789abcdef0123456789abcdef0123456789abcdefX", "s3cr3t/+=", "TheMatrIX", "pa\u{df}wort", "nb\u{a0}sp\u{2003}pw and space", "caf-e\u{301}-\u{212b}ngstrom", "0123456789abcdef0123456789abcdef0123456789abcdef0123456789abcdef-long"];
 // ASCII only: the library's quoted-string grammar rejects most non-ASCII text in REALM/NONCE (not a
 // subject of the claimed properties), so non-ASCII realms would only exercise "undecodable challenge"
-const REALMS: &[&str] = &["example.org", "r", "realm.test", "a-much-longer-realm.with.many.labels.example.net"];
+const REALMS: &[&str] = &["example.org", "r", "realm.test", "re:alm", "a-much-longer-realm.with.many.labels.example.net"];
 
 fn gen_cfg(p: &Profile, rng: &mut Rng) -> Cfg {
     let default_timing = rng.chance(p.p_default_timing, 1000);
@@ -276,7 +276,11 @@ fn gen_cfg(p: &Profile, rng: &mut Rng) -> Cfg {
     } else if default_timing {
         Transport::Unreliable { rto_ns: 500 * MS, gran_ns: MS, rm: 16, rc: 7 }
     } else {
-        let rto = rng.log_range(p.rto_ms.0 * MS, p.rto_ms.1 * MS);
+        let rto = match rng.below(20) {
+            0 => rng.log_range(1_000, 20 * MS),    // very small (legal) retransmission timeouts
+            1 => rng.log_range(3 * SEC, 60 * SEC), // very large ones
+            _ => rng.log_range(p.rto_ms.0 * MS, p.rto_ms.1 * MS),
+        };
         // keep a 1 us accuracy so that arithmetic is exercised off round numbers
         let rto = rto / 1000 * 1000;
         Transport::Unreliable {
@@ -612,7 +616,7 @@ pub fn apply_corruption(bytes: &mut Vec<u8>, kv: &Kv, key: &[u8]) -> Option<Stri
         }
         "splice" => {
             if let Ok(p) = wire::parse(bytes) {
-                let mut b = wire::Builder { buf: bytes[..p.total()].to_vec() };
+                let mut b = wire::Builder { buf: bytes[..p.total()].to_vec(), pad: 0 };
                 splice_suffix(&mut b, kv_get(kv, "spec").unwrap_or("a"), key);
                 *bytes = b.finish();
             }
@@ -1342,6 +1346,9 @@ impl<'a> World<'a> {
                 if rng.chance(p.p_srv_more, 1000) {
                     parts.push(format!("more={}", rng.below(1 << 24)));
                 }
+                if rng.chance(p.p_srv_more, 3000) {
+                    parts.push(format!("pad={}", *rng.pick(&[0x20u64, 0xff, 0x01, 0x80])));
+                }
                 if rng.chance(p.p_srv_dup, 1000) {
                     parts.push(format!("dup={}", rng.range(1, 2)));
                 }
@@ -1376,6 +1383,7 @@ impl<'a> World<'a> {
                         "think" => "srv_slow".to_string(),
                         "extra" => "srv_splice".to_string(),
                         "more" => "srv_more_attribute_kinds".to_string(),
+                        "pad" => "srv_nonzero_padding".to_string(),
                         "algs" | "anon" | "nonce" => "srv_offer_change".to_string(),
                         "norealm" | "nononce" | "noerr" | "noalgs" => format!("srv_{}", k),
                         _ => continue,
